@@ -18,6 +18,12 @@ PROBES4 = "is_match find:0 caps:0 find_iter caps_iter split splitn:0 splitn:1 sp
     "replacen:%d:%s:%s" % (l, k, hexs(a)) for l in (0, 1, 2, 3) for k, a in [("T", "x"), ("N", "$1"), ("C", "y"), ("I", ""), ("T", "[$0]"), ("T", "$1-${n1}$$")])
 
 
+def _strip_unset(c):
+    while c.endswith(",-"):
+        c = c[:-2]
+    return c
+
+
 def run_c04(tier, seed, replay=None):
     res = core.Result("C04", tier, seed)
     obligations, closed, log = core.coq_property("C04", ["C04_iter_spec", "C04_split_spec", "C04_replace_spec"])
@@ -27,7 +33,7 @@ def run_c04(tier, seed, replay=None):
     r = core.rng(seed, "C04")
     feats = [gen.Feats(fancy=False, named=True, flags=True), gen.Feats(fancy=False, wordb=True), gen.Feats(fancy=False, nullable_star=True, named=True)]
     pats, trees = [], {}
-    corpus = ["(?:ab|a)\\B", "(?:Mr\\.|Mr)\\b", "(\\b(?:ab|a))b", "\\b", "\\B", "a*", "(a)|b", "(?i)a\\b", "\\ba*?\\b", "(?m)^\\b", "x*\\b", "(?:(\\b))*", "(?<n1>a)\\b|b"]
+    corpus = ["(?:ab|a)\\B", "(?:Mr\\.|Mr)\\b", "(\\b(?:ab|a))b", "\\b", "\\B", "a*", "(a)|b", "(?i)a\\b", "\\ba*?\\b", "(?m)^\\b", "x*\\b", "(?:(\\b))*", "(?<n1>a)\\b|b", "(a){0}b", "(a){0}(b)", "a(?:(b)|c){0}"]
     if replay and "pattern" in replay:
         pats = [replay["pattern"]]
     else:
@@ -59,7 +65,15 @@ def run_c04(tier, seed, replay=None):
             if a[0] == "new=fancy":
                 fancy_n += 1
             for nm, x, y in zip(names, a[1:], b[1:]):
+                if nm == "meta":
+                    continue      # captures_len / capture_names are C16's subject, not in C04's list; the regex crate drops a trailing group under {0}
                 n += 1
+                if nm.startswith("caps"):
+                    # a trailing group that did not participate reads as None through get(i) whether the
+                    # engine keeps the group (fancy-regex: captures_len = 1 + groups, C16) or drops it
+                    # (the regex crate drops a trailing group under a {0} repetition)
+                    x = ";".join(_strip_unset(c) for c in x.split(";"))
+                    y = ";".join(_strip_unset(c) for c in y.split(";"))
                 if x != y:
                     rec = {"kind": "input", "pattern": p, "text": t, "probe": nm, "impl": x, "reference": y, "check": "fancy_regex = regex crate on the common syntax"}
                     tr = trees.get(p)
@@ -252,7 +266,27 @@ def run_c14(tier, seed, replay=None):
                 known.append(dict(rec, finding="F-builder-limits"))
             else:
                 bad.append(rec)
-    res.oblige("property: builder options on the real crate — case_insensitive(true) on P = (?i)P (%d searches); delegate size limits honoured" % n, not bad)
+    # backtrack_limit reaches every entry point of a VM-compiled pattern alike: is_match, find and captures start the
+    # same search, so with one limit they fail together or succeed together
+    lpats = ["(a|b|ab)*(?=B)", "(a+a+)+(?=B)", "(?:a|ab)*(?=c)\\b", "(?i)(a|b|ab)*(?=c)", "(\\w+)\\1(?=B)", "(?<=a)(a|aa)*b"] + [p for p in pats if "(?" in p or "\\1" in p][:60 if tier == "quick" else 600]
+    ltexts = ["abababab", "aaaaaaaa", "aBAbabABab", "aaaab", "abab"]
+    l4, m4 = [], []
+    for p in lpats:
+        for t in ltexts:
+            for lim in ("1", "3", "10", "50"):
+                l4.append("%s\t%s\t%s\t0\tis_match find:0 caps:0" % (hexs(p), hexs(t), lim))
+                m4.append((p, t, lim))
+    o4 = core.run_impl("api", l4)
+    nl = 0
+    for (p, t, lim), line in zip(m4, o4):
+        v = line.split("\t")
+        if len(v) != 4 or not v[0].startswith("new=fancy"):
+            continue
+        nl += 1
+        errs = [x.startswith("ERR:") for x in v[1:]]
+        if len(set(errs)) != 1:
+            bad.append({"kind": "input", "pattern": p, "text": t, "limit": lim, "impl": v[1:], "reference": "is_match, find and captures report the backtrack limit together", "check": "backtrack_limit reaches every entry point"})
+    res.oblige("property: builder options on the real crate — case_insensitive(true) on P = (?i)P (%d searches); delegate size limits honoured; backtrack_limit reaches is_match / find / captures alike (%d limited searches)" % (n, nl), not bad)
     kc = [x for x in known if "finding" not in x]
     kl = [x for x in known if x.get("finding") == "F-builder-limits"]
     ki = [x for x in known if x.get("finding") == "F-builder-casei-inner"]
